@@ -1935,7 +1935,8 @@ impl FileAndTime {
 
     pub fn is_up_to_date(&self) -> bool {
         let file_mod_time = FileAndTime::get_metadata(&self.file);
-        return self.time >= file_mod_time;
+        // any other time stamp means the file is not the one that was read (a file put back from a backup is older)
+        return self.time == file_mod_time;
     }
 
     fn get_metadata(path: &Path) -> SystemTime {
